@@ -36,8 +36,14 @@ def stream_rules(rng):
 
 def mk_env(rng):
     ppm = rng.choice([0, 0, 10000, 100000, 1000000])
-    return {"mode": rng.choice(["run", "ce"]), "streams": rng.choice(["pipes", "one"]), "seed": rng.hexbytes(16), "seed2": rng.hexbytes(16),
-            "gc": "%d:%d" % (rng.below(1 << 30), ppm) if ppm else None, "rules": stream_rules(rng) if rng.chance(2, 3) else []}
+    env = {"mode": rng.choice(["run", "ce"]), "streams": rng.choice(["pipes", "one"]), "seed": rng.hexbytes(16), "seed2": rng.hexbytes(16),
+           "gc": "%d:%d" % (rng.below(1 << 30), ppm) if ppm else None, "rules": stream_rules(rng) if rng.chance(2, 3) else []}
+    # where the project lives: the path ends up in every frame label (file#function)
+    env["subdir"] = rng.weighted([(None, 5), ("job#42", 2), ("sp ace", 1), ("é#x", 1)])
+    # what an earlier build left behind at the artefact paths
+    if rng.chance(1, 3):
+        env["dirty"] = {"kind": rng.choice(["longer", "shorter", "other_program", "garbage"]), "fill": rng.hexbytes(8)}
+    return env
 
 
 def gen_cases(tier, seed):
@@ -132,23 +138,32 @@ def run_case(case):
     files, expect, stack = r["files"], [e[1] for e in r["expect"]], r["stack"]
     env = case["env"]
     plan = {"seed": env["seed"], "rules": env["rules"]}
+    sub = env.get("subdir")
+    pre = (sub + "/") if sub else ""
+    if sub:
+        files = {pre + k: v for k, v in files.items()}
+        stack = [[m, pre + f, n] for m, f, n in stack]
     world = core.fresh_world(files)
+    if env.get("dirty"):
+        import pipeline
+        pipeline.place_dirty(world, env, pipeline.module_artefacts(files, pre + "main.ms"))
     procs = []
     if env["mode"] == "run":
-        p = core.run_cmd(world, ["run", "main.ms", "-q"], plan=plan, gc=env["gc"], streams=env["streams"])
+        p = core.run_cmd(world, ["run", pre + "main.ms", "-q"], plan=plan, gc=env["gc"], streams=env["streams"])
         procs.append(p)
     else:
-        c = core.run_cmd(world, ["compile", "main.ms", "--quick"], plan={"seed": env["seed"], "rules": []})
+        c = core.run_cmd(world, ["compile", pre + "main.ms", "--quick"], plan={"seed": env["seed"], "rules": []})
         procs.append(c)
         if c["rc"] != 0:
             p = c
         else:
-            p = core.run_cmd(world, ["execute", "main.mmm"], plan={"seed": env["seed2"], "rules": env["rules"]}, gc=env["gc"], streams=env["streams"])
+            p = core.run_cmd(world, ["execute", pre + "main.mmm"], plan={"seed": env["seed2"], "rules": env["rules"]}, gc=env["gc"], streams=env["streams"])
             procs.append(p)
     st = core.stats_of(procs, [env["rules"]] * len(procs))
     spec = case["gen"]["spec"]
     st["hash_seeds"] = [env["seed"], env["seed2"]]
-    st["shape"] = core.shape_hash(spec, env["mode"], env["streams"], [(x["pat"], x["act"].split(":")[0]) for x in env["rules"]], bool(env["gc"]))
+    st["shape"] = core.shape_hash(spec, env["mode"], env["streams"], [(x["pat"], x["act"].split(":")[0]) for x in env["rules"]], bool(env["gc"]),
+                                  env.get("subdir"), bool(env.get("dirty")))
     st["nontrivial"] = True
     st["sample"] = {"spec": spec, "env": {k: env[k] for k in ("mode", "streams", "gc")}, "rules": [(x["pat"], x["nth"], x["act"]) for x in env["rules"]]}
     pr = {"depth_%d" % len(spec["links"]): 1, "failure_" + spec["failure"]: 1}
@@ -156,6 +171,10 @@ def run_case(case):
         pr["successful_calls_before_failing_one"] = 1
     if env["streams"] == "one":
         pr["both_streams_on_one_pipe"] = 1
+    if env.get("subdir"):
+        pr["project_path_contains_hash_or_space"] = 1
+    if env.get("dirty"):
+        pr["stale_artefacts_present"] = 1
     st["probes"] = pr
     out = core.text(p["out"])
     err = core.text(p["err"]) if env["streams"] == "pipes" else out
@@ -203,6 +222,7 @@ def run_case(case):
         return fail("wrong-trace", d)
     if spec["failure"] == "assert" and r.get("assert_pos"):
         f, line, col = r["assert_pos"]
+        f = pre + f
         if "%s:%d:%d" % (f, line, col) not in err:
             return fail("assert-position", "the report does not name the assert at %s:%d:%d: %r" % (f, line, col, [l for l in err.split("\n") if "assert" in l.lower()][:2]))
     return {"ok": True, "stats": st}
@@ -226,6 +246,11 @@ def shrink(case):
         c = copy.deepcopy(case)
         c["env"]["streams"] = "pipes"
         yield c
+    for key in ("subdir", "dirty"):
+        if env.get(key):
+            c = copy.deepcopy(case)
+            c["env"][key] = None
+            yield c
     for g in gens.shrink(case["gen"]):
         c = copy.deepcopy(case)
         c["gen"] = g
